@@ -33,6 +33,9 @@ defaults include instances of user subclasses of every container kind. -/
 open Utv.C03C in
 /-- the class `multi` / `isinstance(.., dict)` see -/
 def cclsOf (k : Kind) : CCls :=
+  match k with
+  | .inst _ true => .dict          -- a Schema instance is a dict
+  | _ =>
   match k.base with
   | .list => .list | .tuple => .tuple | .set => .set | .fset => .frozenset | .dict => .dict
   | _ => .other
@@ -51,6 +54,7 @@ theorem C19_gen_copied_iff_multi_or_dict (k : Kind) (xs : List C03C.CVal) :
   gen_obligation "C19_gen_copied_iff_multi_or_dict: utils/functional.py multi()/copy_value no longer test what the heap model's Kind.copied says" by
     cases k with
     | usr b => cases b <;> simp [Kind.copied, Kind.base, encNode, cclsOf, Functional.multi, C03C.CV.isinstance, C03C.CV.typeOf]
+    | inst c b => cases b <;> simp [Kind.copied, Kind.base, encNode, cclsOf, Functional.multi, C03C.CV.isinstance, C03C.CV.typeOf]
     | _ => simp [Kind.copied, Kind.base, encNode, cclsOf, Functional.multi, C03C.CV.isinstance, C03C.CV.typeOf]
 
 /-- what is not rebuilt is handed back as it is (`return data`) â€” whatever the recursive calls would do -/
@@ -60,6 +64,8 @@ theorem C19_gen_not_copied_returns_argument (W : C03C.World) (rec : C03C.CVal â†
   gen_obligation "C19_gen_not_copied_returns_argument: copy_value no longer returns other objects unchanged" by
     cases k with
     | usr b => cases b <;> simp_all [Kind.copied, Kind.base, encNode, cclsOf, Functional.copy_value_step, Functional.multi,
+        C03C.CV.isinstance, C03C.CV.typeOf, pure, Except.pure, bind, Except.bind]
+    | inst c b => cases b <;> simp_all [Kind.copied, Kind.base, encNode, cclsOf, Functional.copy_value_step, Functional.multi,
         C03C.CV.isinstance, C03C.CV.typeOf, pure, Except.pure, bind, Except.bind]
     | _ => simp_all [Kind.copied, Kind.base, encNode, cclsOf, Functional.copy_value_step, Functional.multi,
         C03C.CV.isinstance, C03C.CV.typeOf, pure, Except.pure, bind, Except.bind]
@@ -74,6 +80,8 @@ theorem C19_gen_seq_rebuilt_from_copies (W : C03C.World) (rec : C03C.CVal â†’ C0
     cases k with
     | usr b => cases b <;> simp_all [Kind.isSeq, Kind.base, encNode, cclsOf, Functional.copy_value_step, Functional.multi,
         C03C.CV.isinstance, C03C.CV.typeOf, C03C.CV.iter, pure, Except.pure, bind, Except.bind]
+    | inst c b => cases b <;> simp_all [Kind.isSeq, Kind.base, encNode, cclsOf, Functional.copy_value_step, Functional.multi,
+        C03C.CV.isinstance, C03C.CV.typeOf, C03C.CV.iter, pure, Except.pure, bind, Except.bind]
     | _ => simp_all [Kind.isSeq, Kind.base, encNode, cclsOf, Functional.copy_value_step, Functional.multi,
         C03C.CV.isinstance, C03C.CV.typeOf, C03C.CV.iter, pure, Except.pure, bind, Except.bind]
 
@@ -85,6 +93,8 @@ theorem C19_gen_dict_rebuilt_from_copies (W : C03C.World) (rec : C03C.CVal â†’ C
   gen_obligation "C19_gen_dict_rebuilt_from_copies: copy_value no longer rebuilds a dict from the copies of its values" by
     cases k with
     | usr b => cases b <;> simp_all [Kind.base, encNode, cclsOf, Functional.copy_value_step, Functional.multi,
+        C03C.CV.isinstance, C03C.CV.typeOf, C03C.CV.dictMapValues, pure, Except.pure, bind, Except.bind]
+    | inst c b => cases b <;> simp_all [Kind.base, encNode, cclsOf, Functional.copy_value_step, Functional.multi,
         C03C.CV.isinstance, C03C.CV.typeOf, C03C.CV.dictMapValues, pure, Except.pure, bind, Except.bind]
     | _ => simp_all [Kind.base, encNode, cclsOf, Functional.copy_value_step, Functional.multi,
         C03C.CV.isinstance, C03C.CV.typeOf, C03C.CV.dictMapValues, pure, Except.pure, bind, Except.bind]
